@@ -1109,7 +1109,7 @@ class FileParser(object):
         ))
 
         # special case for a float written like "3e5"
-        mixed_exp = _ToFloat(Combine(digits + ee + Optional(sign) + digits))
+        mixed_exp = _ToFloat(Combine(Optional(sign) + digits + ee + Optional(sign) + digits))
 
         nan = (_ToInf(oneOf("Inf -Inf")) |
                _ToNan(oneOf("NaN nan NaN%  NaNQ NaNS qNaN sNaN 1.#SNAN 1.#QNAN -1.#IND")))
